@@ -8,7 +8,7 @@
     regenerated from the engine (coq/gen/ZobristTables.v). *)
 From Coq Require Import ZArith NArith List Bool.
 From Texel Require Import Chess.Types Chess.Position Chess.PositionSpec Chess.PositionProofs3
-  Chess.PositionTheorems Chess.Fen Chess.PositionInst Chess.PositionExamples.
+  Chess.PositionTheorems Chess.Fen Chess.PositionInst Chess.PositionExamples Chess.PositionSources.
 Import ListNotations.
 Local Open Scope N_scope.
 
@@ -48,6 +48,19 @@ Theorem C02_unmake_make_emptyBB_refuted :
 Proof. exact unmake_make_emptyBB_refuted. Qed.
 Print Assumptions C02_unmake_make_emptyBB_refuted.
 
+(** not yet proved: the bitboard-only (MoveGen::isLegal) and SEE variants restore the fields they
+    maintain (compared on ~11k probes per run by the correspondence check) *)
+Definition C02_unmake_make_B_statement : Prop :=
+  forall zk p m, Consistent zk p -> moveOk p m = true ->
+    let q := unMakeMoveB (fst (makeMoveB p m)) m (snd (makeMoveB p m)) in
+    squares q = squares p /\ (forall pc, 1 <= pc -> ptBB q pc = ptBB p pc) /\
+    whiteBB q = whiteBB p /\ blackBB q = blackBB p.
+Definition C02_unmake_make_SEE_statement : Prop :=
+  forall zk p m, Consistent zk p -> moveOk p m = true -> mpromote m = EMPTY ->
+    let q := unMakeSEEMove (fst (makeSEEMove p m)) m (snd (makeSEEMove p m)) in
+    squares q = squares p /\ (forall pc, 1 <= pc -> ptBB q pc = ptBB p pc) /\
+    whiteBB q = whiteBB p /\ blackBB q = blackBB p /\ whiteMove q = whiteMove p.
+
 (** representation invariant: preserved by every operation, hence by every history of
     make / take-back / null-move style edits *)
 Theorem C02_rep_invariant : forall zk, emptyKeysZero zk -> forall ops s0,
@@ -73,13 +86,19 @@ Theorem C02_rep_invariant_ops : forall zk, emptyKeysZero zk -> forall k p,
 Proof. exact ops_consistent. Qed.
 Print Assumptions C02_rep_invariant_ops.
 
-(** not yet proved: that the outputs of readFEN and deSerialize satisfy the invariant
-    (checked by the decidable [consistentb] on every position of the correspondence run) *)
-Definition C02_rep_invariant_sources_statement : Prop :=
+(** every position accepted by the FEN reader satisfies the invariant (so histories may start
+    from any FEN) *)
+Theorem C02_rep_invariant_readFEN : forall zk, emptyKeysZero zk -> forall s p,
+  readFEN zk s = FenOk p -> Consistent zk p.
+Proof. exact readFEN_consistent. Qed.
+Print Assumptions C02_rep_invariant_readFEN.
+
+(** not yet proved: that the output of deSerialize satisfies the invariant (checked by the
+    decidable [consistentb] on every deserialised position of the correspondence run) *)
+Definition C02_rep_invariant_deSerialize_statement : Prop :=
   forall zk, emptyKeysZero zk ->
-    (forall s p, readFEN zk s = FenOk p -> Consistent zk p) /\
-    (forall d, Forall (fun w => w < 2^64) d -> length d = 5%nat ->
-               Forall (fun pc => pc < 13) (squares (deSerialize zk d)) -> Consistent zk (deSerialize zk d)).
+    forall d, Forall (fun w => w < 2^64) d -> length d = 5%nat ->
+              Forall (fun pc => pc < 13) (squares (deSerialize zk d)) -> Consistent zk (deSerialize zk d).
 Theorem C02_rep_invariant_decidable : forall zk p, consistentb zk p = true -> Consistent zk p.
 Proof. exact consistentb_sound. Qed.
 Print Assumptions C02_rep_invariant_decidable.
@@ -107,6 +126,13 @@ Theorem C02_matid_overflow_refuted :
             matId p = 2321154048%Z /\ wrapInt (matId p) = (-1973813248)%Z.
 Proof. exact matid_overflow_refuted. Qed.
 Print Assumptions C02_matid_overflow_refuted.
+
+(** after the fix (unsigned accumulator): the held value is the exact identifier mod 2^32, for
+    every history *)
+Theorem C02_matid_wrap_consistent : forall zk p,
+  Consistent zk p -> wrapInt (matId p) = wrapInt (matIdOf (squares p)).
+Proof. exact matid_wrap_consistent. Qed.
+Print Assumptions C02_matid_wrap_consistent.
 
 (** array indices: partial form (piece codes, e.p. key index, move-count key index, castle masks) *)
 Theorem C02_no_ub_partial : forall zk p s,
